@@ -280,7 +280,10 @@ impl<'a> Gen<'a> {
                 match self.r.below(8) {
                     0 | 1 if self.cfg.entities => {
                         let name = self.r.pick_s(ENT_NAMES).to_string();
-                        let val = self.apieces(true, true);
+                        let mut val = self.apieces(true, true);
+                        // replacement text that contains "]]>" may only be referenced from attribute values (it is not character
+                        // data); the generator references entities anywhere, so such values are not produced here (C02 has them)
+                        if Entities::replacement_text(&val).contains("]]>") { val = vec![APiece::Text("v]]".to_string())]; }
                         if !self.entities.contains(&name) {
                             decls.push(Decl::Entity(name.clone(), val));
                             self.entities.push(name);
